@@ -298,6 +298,7 @@ class HTTP(BaseComponent):
                 # the major HTTP version differs: answer in our own version,
                 # never in one taken from the request line
                 res.protocol = 'HTTP/{:d}.{:d}'.format(*sp)
+                del self._buffers[sock]
                 return self.fire(httperror(req, res, 505))
 
             res.protocol = 'HTTP/{:d}.{:d}'.format(*min(rp, sp))
@@ -321,6 +322,7 @@ class HTTP(BaseComponent):
         path = req.path
         _path = req.uri._path
         if (path.encode(self._encoding) != _path) and (quote(path).encode(self._encoding) != _path):
+            del self._buffers[sock]
             return self.fire(redirect(req, res, [req.uri.utf8()], 301))
 
         req.body = BytesIO(parser.recv_body())
@@ -433,6 +435,9 @@ class HTTP(BaseComponent):
         elif len(fevent.args[2:]) == 4:
             req, res = fevent.args[2:]
         elif len(fevent.args) == 2 and isinstance(fevent.args[0], socket):
+            # a ``read`` handler failed: the message is answered with an
+            # error, whatever its parser holds must not be read again
+            self._buffers.pop(fevent.args[0], None)
             req = wrappers.Request(fevent.args[0], server=self._server)
             res = wrappers.Response(req, self._encoding, 500)
         else:
